@@ -1,7 +1,8 @@
 """C09: range check."""
 import json
 from ..common import *
-from .. import proofgate, composer, widgets
+from .. import proofgate, composer, widgets, protocol
+from .. import jubjub as J
 
 THEOREMS = ["C09_range_layout", "C09_range_block_closed", "C09_range_sound", "C09_range_sound_in_system",
             "C09_entry_points_equal", "C09_entry_point_clamp", "C09_gate_count"]
@@ -17,6 +18,39 @@ def values_for(w, rng, quick):
         pad8 = ((w + 7) // 8) * 8
         vs += [(1 << min(pad8, 254)) % R, ((1 << min(pad8, 254)) + 1) % R, rng.scalar() % (1 << max(w, 1)), 0]
     return vs
+
+def cancelling_pairs(limit=40):
+    """(x, y) outside {0,1,2,3} with delta(x) + delta(y) = 0:  delta(f) = s(f)^2 - 1 with s = f^2 - 3f + 1,
+    so s_x^2 + s_y^2 = 2; the conic is parametrised through (1,1) with slope t"""
+    out = []
+    t = 2
+    def solve(sv):
+        rt = J.sqrt((5 + 4 * sv) % R)
+        return None if rt is None else (3 + rt) * J.inv(2) % R
+    dl = lambda f: f * (f - 1) % R * (f - 2) % R * (f - 3) % R
+    while len(out) < limit and t < 4000:
+        u = (-2 * (1 + t)) * J.inv(1 + t * t) % R
+        x, y = solve((1 + u) % R), solve((1 + t * u) % R)
+        if x is not None and y is not None and dl(x) != 0 and (dl(x) + dl(y)) % R == 0:
+            out.append((x, y))
+        t += 1
+    return out
+
+def cancelling_cases(rng):
+    """rbits 16: digits d4..d7 are the four quads of the second range row; two of them carry a cancelling pair"""
+    cases = []
+    prs = cancelling_pairs(12)
+    k = 0
+    for i in range(4):
+        for j in range(i + 1, 4):
+            x, y = prs[k % len(prs)]; k += 1
+            digits = [rng.randrange(4) for _ in range(8)]
+            digits[4 + i], digits[4 + j] = x, y
+            accs, a = [], 0
+            for d in digits:
+                a = (4 * a + d) % R; accs.append(a)
+            cases.append((f"cq{i}{j}", ["w " + hx(accs[-1]), "rbits 16 $0"], {7 + n: v for n, v in enumerate(accs)}, (i + 1, j + 1)))
+    return cases
 
 def run(ck):
     quick = ck.tier == "quick"
@@ -72,16 +106,35 @@ def run(ck):
                 w2[first_new + j] = (v >> (2 * (cnt - 1 - j))) % R    # leading "quad" holds the overflow
             jobs.append((name + "_alias", snap, w2)); expect[name + "_alias"] = False
             ck.count(("alias", w, v), kind="template: overflowing leading quad")
+    # two quads of one row outside {0..3} whose delta values cancel: satisfiable only if the widget
+    # gives two of its four quad checks the same weight
+    cq = cancelling_cases(rng)
+    cq_lines = []
+    for cid, body, over, pr in cq:
+        cq_lines += ["prog " + cid] + body + [f"setw {i} {hx(v)}" for i, v in sorted(over.items())] + ["snap"]
+        ck.count(("cq", pr), kind="template: cancelling quads %d,%d of one row" % pr)
+    cq_impl, _ = composer.run_both(ck, "\n".join(cq_lines) + "\n", "c09_cq")
+    for cid, body, over, pr in cq:
+        jobs.append((cid, Snapshot(cq_impl[cid]), None)); expect[cid] = False
+        progs[cid] = body + [f"setw {i} {hx(v)}" for i, v in sorted(over.items())]; meta[cid] = ("cancelling quads", 16, pr)
+    verd = protocol.real_prover_verdicts([(cid, body, over) for cid, body, over, pr in cq], "c09_rp", pp_log=6)
+    for cid, body, over, pr in cq:
+        if verd.get(cid) == "ACCEPTED":
+            ck.violation(f"range soundness: a witness outside [0, 2^16) with two non-quad digits whose delta values cancel (quad checks {pr[0]} and {pr[1]} of one row) was PROVED by the real prover and accepted by the verifier",
+                         {"failing_input_found": True, "program": progs[cid], "quad_checks": list(pr)}, key=f"cancel:{pr[0]}{pr[1]}")
+        elif verd.get(cid, "").startswith("ERROR"):
+            raise BuildError("C09 real-prover second opinion failed: " + verd[cid])
     res = composer.model_sat(jobs, "c09_sat")
     mism = [(n, expect[n], res.get(n, "?")) for n in expect if (res.get(n, "?") is None) != expect[n]]
     for n, e, r_ in mism[:1]:
         base = n.replace("_alias", "")
+        if ck.violations: break
         ck.violation(f"range exactness fails on the real layout: program {base} meta={meta[base]} expected satisfiable={e}, extracted evaluator: first bad row={r_}",
                      {"failing_input_found": True, "program": progs[base], "template": "alias" if n.endswith("_alias") else "honest", "expected_sat": e},
                      key=f"exact:{meta[base][0]}:{meta[base][1]}")
     if ep_bad and not mism:
         ck.violation(f"entry points emit different gates for pairs={ep_bad[:5]}", {"failing_input_found": True, "pairs": ep_bad[:5], "program": progs[f"rp{ep_bad[0]}_0"]})
-    if (bad or wbad) and not mism and not ep_bad:
+    if (bad or wbad) and not mism and not ep_bad and not ck.violations:
         if bad:
             name, d = bad[0]
             ck.violation(f"correspondence C09 (L3) broke on {len(bad)} of {len(progs)} programs; first {name} {meta[name]}: {d}",
